@@ -168,7 +168,16 @@ class Arith(Unit):
         elif op in ("mul", "div"):
             a["q"], a["qv"] = mk_number(S, "w", self.kind, nonzero=(op == "div"))
         elif op in ("floordiv", "mod", "divmod"):
-            a["q"], a["qv"] = mk_number(S, "w", self.kind, lo=Fraction(1, 10))
+            if self.kind == "phase":
+                a["q"], a["qv"] = mk_phase(S, "q", (), False)
+                S.assume(a["qv"][0] > Fraction(1, 10))
+                S.assume(a["qv"][0] < 1000)
+            else:
+                a["q"], a["qv"] = mk_number(S, "w", self.kind, lo=Fraction(1, 10))
+            if self.reflected:
+                # the Phase is the divisor: keep it positive and moderate like the other divisors
+                S.assume(a["pv"][0] > Fraction(1, 10))
+                S.assume(a["pv"][0] < 1000)
         return a
 
     def call(self, a):
@@ -194,11 +203,11 @@ class Arith(Unit):
         if op == "abs":
             return abs(p)
         if op == "floordiv":
-            return p // q
+            return (q // p) if self.reflected else (p // q)
         if op == "mod":
-            return p % q
+            return (q % p) if self.reflected else (p % q)
         if op == "divmod":
-            return divmod(p, q)
+            return divmod(q, p) if self.reflected else divmod(p, q)
         if op in ("sin", "cos"):
             return getattr(np, op)(p)
         raise ValueError(op)
@@ -263,8 +272,9 @@ class Arith(Unit):
             return self._phase_checks(S, out, [zabs(x) for x in pv], False)       # |i*x| = |x| is real
         if op in ("floordiv", "mod", "divmod"):
             w = a["qv"]
-            fdw = [z3.ToReal(z3.ToInt(x / y)) for x, y in bc(pv, w)]
-            remw = [x - y * f for (x, y), f in zip(bc(pv, w), fdw)]
+            pairs = [(y, x) for x, y in bc(pv, w)] if self.reflected else bc(pv, w)          # (dividend, divisor)
+            fdw = [z3.ToReal(z3.ToInt(x / y)) for x, y in pairs]
+            remw = [x - y * f for (x, y), f in zip(pairs, fdw)]
             checks = []
             if op in ("floordiv", "divmod"):
                 fd = out[0] if op == "divmod" else out
@@ -378,6 +388,8 @@ def units(tier):
     for op in ("floordiv", "mod", "divmod"):
         us.append(Arith(op, "quantity-cycle"))
         us.append(Arith(op, "angle"))
+        us.append(Arith(op, "phase"))                                 # Phase divided by a Phase
+        us.append(Arith(op, "angle" if op != "mod" else "quantity-cycle", reflected=True))      # an angle divided by a Phase
     for op in ("sin", "cos"):
         us.append(Arith(op, "none"))
         us.append(Arith(op, "none", shape=(2,)))
